@@ -193,7 +193,9 @@ class PendingIf(_PendingCompoundStmt[If]):
             is_bool_value = condition is not test
             test = condition
             if len(self.converted_orelse) > 0:
-                body_or_true = BoolOp(op=Or(), values=[body, Constant(value=1)])
+                # a one-element list is always true, whatever the body evaluates to
+                # (`body or 1` would check the truth value of the body's last statement)
+                body_or_true = List(elts=[body], ctx=Load())
                 if not is_bool_value:
                     # `test and ...` evaluates to `test` itself when it is false,
                     # `... or orelse` would check the truth value of `test` again.
